@@ -150,7 +150,7 @@ def run(tier, seed):
                        '(taper1 enforces the window by its own assertions; no closed invariant proof for the three-state loop of taper2)']
     standard_front(chk, 'Props/C13.v', extra_vo=('Model/Geometry.v', 'Model/Taper.v', 'Proofs/GeometryP.v', 'Proofs/GeometryR.v', 'Corr/GeomDriver.v'))
     rng = random.Random(seed)
-    good, errs = stage_geom.run_stage(chk, rng, 160 if tier == 'quick' else 2400)
+    good, errs = stage_geom.run_stage(chk, rng, 160 if tier == 'quick' else 9600)
     for r in good:
         sp = r['spec']
         nt = any(w['type'] != 'wire' or w.get('taper') for w in sp['wires']) or bool(sp['transforms']) or bool(sp['scales'])
@@ -161,7 +161,7 @@ def run(tier, seed):
             report_error(chk, 'geom', r)
     oracle(chk, good)
     # mirror property on the real code
-    mc = mirror_cases(rng, 40 if tier == 'quick' else 400)
+    mc = mirror_cases(rng, 40 if tier == 'quick' else 1600)
     ok_, res = run_worker('geom', dict(cases=mc))
     nm = 0
     if ok_:
